@@ -111,21 +111,19 @@ func (n *NameTrie[V]) Delete() {
 }
 
 // DeleteIf deletes the node and its ancestors if they are empty.
-// Whether empty or not is defined by a given function.
+// Whether the value is empty or not is defined by a given function.
+// A node that still has children is never deleted: its descendants hold values.
 func (n *NameTrie[V]) DeleteIf(pred func(V) bool) {
-	if !pred(n.val) {
+	if len(n.chd) > 0 || !pred(n.val) {
 		return
 	}
-	if n.par != nil {
-		n.chd = nil
-		delete(n.par.chd, n.key)
-		if len(n.par.chd) == 0 {
-			n.par.DeleteIf(pred)
-		}
-	} else {
+	if n.par == nil || n.par.chd[n.key] != n {
 		// Root node cannot be deleted.
-		n.chd = map[string]*NameTrie[V]{}
+		// A node that was already removed must not touch the tree (its key may be in use again).
+		return
 	}
+	delete(n.par.chd, n.key)
+	n.par.DeleteIf(pred)
 }
 
 // Depth returns the depth of a node in the tree.
